@@ -899,6 +899,7 @@ func (te *TemplateEngine) cloneDocument(source *Document) *Document {
 
 	// 复制图片ID计数器
 	doc.nextImageID = source.nextImageID
+	doc.stylesRelationshipID = source.stylesRelationshipID
 
 	return doc
 }
